@@ -203,6 +203,72 @@ Proof. intros n. unfold th_run. rewrite th_cycles_run. simpl. split; lia. Qed.
 Theorem shutdown_does_not_reclaim_them : forall n, th_zombie (th_run (th_cycles n ++ [ThShutdown])) = n.
 Proof. intros n. unfold th_run. rewrite fold_left_app, th_cycles_run. simpl. lia. Qed.
 
+(* ------------------------------------------------------------------ 4b. a request wakes the output thread *)
+Lemma rq_bound : forall b kd t s, 3 <= t -> rq_step b kd t s = None.
+Proof. intros b kd t s H. unfold rq_step. do 3 (destruct t as [|t]; [lia|]). reflexivity. Qed.
+
+Definition rq_reach (b : bool) (kd : nat) : list rq_st :=
+  explore rq_st rq_st_beq (rq_step b kd) 3 20000 [rq_init] [].
+Definition rq_good (b : bool) (kd : nat) (s : rq_st) : bool := rq_sent (run rq_st (rq_step b kd) rq_rr s).
+
+Lemma rq_closed : forall kd, kd < 2 -> closed rq_st rq_st_beq (rq_step false kd) 3 (rq_reach false kd) = true.
+Proof. intros kd H. do 2 (destruct kd as [|kd]; [vm_compute; reflexivity|]). exfalso; lia. Qed.
+Lemma rq_init_in : forall kd, kd < 2 -> In rq_init (rq_reach false kd).
+Proof. intros kd H. apply (mem_in _ _ internal_rq_st_dec_bl). do 2 (destruct kd as [|kd]; [vm_compute; reflexivity|]). exfalso; lia. Qed.
+Lemma rq_all_good : forall kd, kd < 2 -> forallb (rq_good false kd) (rq_reach false kd) = true.
+Proof. intros kd H. do 2 (destruct kd as [|kd]; [vm_compute; reflexivity|]). exfalso; lia. Qed.
+
+(* the application's last operation was a mark (kind 0) or a copy (kind 1): however the three threads
+   were scheduled so far, letting them run on (round robin) ends with the update sent *)
+Theorem request_wakes_output : forall kd sched, kd < 2 ->
+  rq_sent (run rq_st (rq_step false kd) rq_rr (run rq_st (rq_step false kd) sched rq_init)) = true.
+Proof.
+  intros kd sched H.
+  exact (all_schedules rq_st rq_st_beq internal_rq_st_dec_bl (rq_step false kd) 3 (rq_bound false kd)
+           (rq_reach false kd) (rq_good false kd) rq_init (rq_closed kd H) (rq_init_in kd H) (rq_all_good kd H) sched).
+Qed.
+
+(* cursor moved / replaced (no signal of its own) BEFORE the request arrives: the request's signal
+   gets the cursor update sent, under every schedule of input and output thread *)
+Definition rq_cur_init : rq_st := mkRq false false false true 0 false false 1 0 0.
+Definition rq_cur_reach : list rq_st := explore rq_st rq_st_beq (rq_step false 2) 3 20000 [rq_cur_init] [].
+Lemma rq_cur_closed : closed rq_st rq_st_beq (rq_step false 2) 3 rq_cur_reach = true.
+Proof. vm_compute. reflexivity. Qed.
+Lemma rq_cur_init_in : In rq_cur_init rq_cur_reach.
+Proof. apply (mem_in _ _ internal_rq_st_dec_bl). vm_compute. reflexivity. Qed.
+Lemma rq_cur_good : forallb (rq_good false 2) rq_cur_reach = true.
+Proof. vm_compute. reflexivity. Qed.
+Theorem request_wakes_output_cursor : forall sched,
+  rq_sent (run rq_st (rq_step false 2) rq_rr (run rq_st (rq_step false 2) sched rq_cur_init)) = true.
+Proof.
+  intros sched.
+  exact (all_schedules rq_st rq_st_beq internal_rq_st_dec_bl (rq_step false 2) 3 (rq_bound false 2)
+           rq_cur_reach (rq_good false 2) rq_cur_init rq_cur_closed rq_cur_init_in rq_cur_good sched).
+Qed.
+
+(* but a cursor change while a request is already outstanding wakes nobody (rfbDefaultPtrAddEvent and
+   rfbSetCursor do not signal updateCond): the position/shape update waits for the next event *)
+Definition rq_cur_witness : list nat := [1; 1; 1; 2; 2; 0].
+Theorem cursor_change_does_not_wake :
+  let s := run rq_st (rq_step false 2) rq_cur_witness rq_init in
+  rq_req s = true /\ rq_cur s = true /\ rq_sent s = false /\ forall t, enabled rq_st (rq_step false 2) t s = false.
+Proof.
+  repeat split; try (vm_compute; reflexivity).
+  intros t. do 3 (destruct t as [|t]; [vm_compute; reflexivity|]). reflexivity.
+Qed.
+
+(* the signal of the request handler must not depend on modifiedRegion: with "signal only if modified"
+   a copy (or cursor change) followed by a request leaves the output thread asleep with work pending *)
+Definition rq_witness : list nat := [2; 2; 0; 0; 0; 2; 2; 2; 1; 1; 1].
+Theorem conditional_signal_loses_update :
+  let s := run rq_st (rq_step true 1) rq_witness rq_init in
+  rq_req s = true /\ rq_copy s = true /\ rq_sent s = false /\
+  forall t, enabled rq_st (rq_step true 1) t s = false.
+Proof.
+  repeat split; try (vm_compute; reflexivity).
+  intros t. do 3 (destruct t as [|t]; [vm_compute; reflexivity|]). reflexivity.
+Qed.
+
 (* ------------------------------------------------------------------ 5. lock order *)
 Section LockOrder.
   Variable rank : nat -> nat.
